@@ -269,7 +269,7 @@ class AstGen:
             if self.comments and r.below(3) == 0:
                 # field tags are written as comment lines of a fixed shape; they also stay part of the doc comment
                 tags = []
-                for _ in range(1 + r.below(2)):
+                for _ in range(1 + r.below(2) if r.below(3) else 3 + r.below(2)):     # now and then enough tags for a key to repeat before another one
                     if r.below(3) == 0:
                         key = r.choice(["omitempty", "flag", "x"])
                         tags.append((key, "", True, "[tag(%s)]" % key))
